@@ -10,6 +10,15 @@ NOT_APPLICABLE = {}
 PENDING_REASON = "check not built yet in this revision of /verif (planned in DESIGN.md section 4); nothing is claimed for it"
 
 
+def level_text(mod):
+    doc = " ".join(x.strip() for x in mod.__doc__.strip().splitlines())
+    why = {
+        "exploration": "Exploration: a seeded, sharded random search over generated cases judged by an oracle that does not reuse the code under test; it shows the property on everything generated (counts, classes and samples are in the evidence) and cannot show absence of violations - the right level for a quantifier over unbounded trees, names, histories and option combinations.",
+        "fault_enumeration": "Fault enumeration: inside every generated case the fault space named by the property (crash points / tampered manifests x commands / mutations x commands / server behaviours x release points) is enumerated completely or by class, on top of the random search over worlds; exhaustive per case, sampled over cases.",
+    }[mod.LEVEL]
+    return (doc[:1400] + " " + why).strip()
+
+
 def main():
     checks, na = [], []
     for pid in ALL:
@@ -31,7 +40,7 @@ def main():
                 "engine": "mhlverif",
                 "level_claimed": {
                     "category": mod.LEVEL,
-                    "text": getattr(mod, "LEVEL_TEXT", mod.__doc__.strip().split("\n\n")[0]),
+                    "text": level_text(mod),
                     "design_ref": "DESIGN.md section 4, %s" % pid,
                 },
                 "level_note": "; ".join(getattr(mod, "ASSUMPTIONS", [])) or "oracle independence as described in DESIGN.md section 1",
